@@ -466,17 +466,49 @@ theorem no_event_hidden_after_stale_snapshot (old : List ChkInfo) (ck : Chunk) (
     have : ¬ o.recs < ck.recs.length := by omega
     simp [syncChunkB, hfind, this]
 
-/-- the witness of F06 on the branch the source is on NOW (`syncChunksDropsStaleEntries`, regenerated): hidden without the
-repair, exact with it — this theorem holds on both trees and says which one it is looking at -/
+/-- **F06 repaired** (a2ca477; `syncChunksDropsStaleEntries = true`, regenerated): on the witness of the finding — the
+snapshot of an earlier clean stop knows chunk 1 with the hull `[10, 20]` of 2 records, the chunk holds a third record 30 —
+the entry is dropped, `RANGE [25:35]` returns the flushed event, and the state is not in F06's class any more. Reverting
+the repair flips the fact and breaks this theorem. -/
 theorem stale_snapshot_witness :
     let stale : CMap := [([106], [⟨1, 10, 20, 0, 2⟩])]
     let cks : List Chunk := [⟨1, [10, 20, 30]⟩]
-    rangeSpec cks 25 35 = [30] ∧
-    (if syncChunksDropsStaleEntries then
-       rangeVisible (hullView stale [106] cks) cks 25 35 = [30] ∧ staleGrown ((alookup stale [106]).getD []) cks = false
-     else
-       rangeVisible (hullView stale [106] cks) cks 25 35 = [] ∧ staleGrown ((alookup stale [106]).getD []) cks = true) := by
+    syncChunksDropsStaleEntries = true ∧ rangeSpec cks 25 35 = [30] ∧
+    rangeVisible (hullView stale [106] cks) cks 25 35 = [30] ∧ staleGrown ((alookup stale [106]).getD []) cks = false := by
   decide
+
+/-- **No flushed event is hidden after recovery from a stale snapshot** (the statement about the code as it is): a chunk
+the loaded index knows with fewer records than it holds gets — `syncChunk`, the regenerated branch — a hull that contains
+every record when its timestamps are monotone. -/
+theorem no_event_hidden_after_recovery_from_stale_snapshot (old : List ChkInfo) (ck : Chunk) (o : ChkInfo)
+    (hfind : old.find? (fun o => o.id == ck.id) = some o) (hmono : ck.recs.Pairwise (· ≤ ·)) (hs : o.recs < ck.recs.length) :
+    ∀ t ∈ ck.recs, (syncChunk old ck).minTs ≤ t ∧ t ≤ (syncChunk old ck).maxTs := by
+  have hf : syncChunksDropsStaleEntries = true := by decide
+  have : syncChunk old ck = syncChunkB true old ck := by simp [syncChunk, hf]
+  rw [this]
+  exact (no_event_hidden_after_stale_snapshot old ck o hfind hmono).1 hs
+
+/-- **F47 repaired** (1735e86; `cindexInitValidatesRoots = true`, regenerated): after `cindex.init` no chunk keeps a root
+into a tree file whose block cannot be read or is empty — every remaining root is usable. -/
+theorem no_unusable_root_after_init (usable : Nat → Bool) (m : CMap) :
+    cindexInitValidatesRoots = true ∧
+    ∀ e ∈ forgetUnusableRoots usable m, ∀ ci ∈ e.2, ci.root = 0 ∨ usable ci.root = true := by
+  have hf : cindexInitValidatesRoots = true := by decide
+  refine ⟨hf, ?_⟩
+  intro e he ci hci
+  simp only [forgetUnusableRoots, hf, if_true, List.mem_map] at he
+  obtain ⟨e0, _, rfl⟩ := he
+  simp only [List.mem_map] at hci
+  obtain ⟨c0, _, rfl⟩ := hci
+  by_cases h : c0.root ≠ 0 ∧ usable c0.root = false
+  · simp [h]
+  · rw [if_neg h]
+    by_cases h0 : c0.root = 0
+    · exact Or.inl h0
+    · right
+      cases hu : usable c0.root with
+      | true => rfl
+      | false => exact absurd ⟨h0, hu⟩ h
 
 /-- the stale snapshot is what a crash leaves: after a clean stop (snapshot written), a restart and a further write,
 the disk still holds the snapshot of the clean stop — `cindex.dat` is not touched by `write`. -/
